@@ -311,6 +311,7 @@ class EventBus:
     _is_running: bool = False
     _runloop_task: asyncio.Task[None] | None = None
     _on_idle: asyncio.Event | None = None
+    _events_in_flight: int = 0  # events this bus is processing right now (by its run loop, or inline by a handler awaiting them)
 
     def __init__(
         self,
@@ -569,6 +570,9 @@ class EventBus:
         if self.event_queue:
             try:
                 self.event_queue.put_nowait(event)
+                # The bus is not idle any more (a waiter in wait_until_idle() must not slip through before the run loop has even seen this event)
+                if self._on_idle:
+                    self._on_idle.clear()
 
                 # The event is accepted. Everything below records that on the event itself; none of it may happen for a
                 # dispatch that is rejected (a rejected event that kept this bus in its event_path would later be skipped
@@ -890,8 +894,15 @@ class EventBus:
             await asyncio.sleep(0)  # Yield to event loop
 
             # Double-check we're truly idle - if new events came in, wait again
-            # (the queue is checked too: an event that is already complete, e.g. dispatched to this bus again, is neither pending nor started)
-            while not self._on_idle.is_set() or self.events_started or self.events_pending or self.event_queue.qsize():
+            # (queue and in-flight count are checked too: an event that is already complete, e.g. dispatched to this bus again, or one that was
+            # evicted from the bounded history while a handler awaiting it processes it inline, is neither pending nor started in event_history)
+            while (
+                not self._on_idle.is_set()
+                or self.events_started
+                or self.events_pending
+                or self.event_queue.qsize()
+                or self._events_in_flight
+            ):
                 if timeout is not None:
                     elapsed = asyncio.get_event_loop().time() - start_time
                     remaining_timeout = max(0, timeout - elapsed)
@@ -931,7 +942,7 @@ class EventBus:
                         break
                     # Check if we should set idle state after processing
                     if self._on_idle and self.event_queue:
-                        if not (self.events_pending or self.events_started or self.event_queue.qsize()):
+                        if not (self.events_pending or self.events_started or self.event_queue.qsize() or self._events_in_flight):
                             self._on_idle.set()
                 except QueueShutDown:
                     # Queue was shut down, exit cleanly
@@ -981,7 +992,7 @@ class EventBus:
                 get_next_queued_event.cancel()
 
                 # Check if we're idle, if so, set the idle flag
-                if not (self.events_pending or self.events_started or self.event_queue.qsize()):
+                if not (self.events_pending or self.events_started or self.event_queue.qsize() or self._events_in_flight):
                     self._on_idle.set()
                 return None
 
@@ -1041,6 +1052,15 @@ class EventBus:
 
     async def process_event(self, event: 'BaseEvent[Any]', timeout: float | None = None) -> None:
         """Process a single event (assumes lock is already held)"""
+        # Counted so that wait_until_idle() knows about events that event_history cannot show as started:
+        # evicted from a bounded history, or already complete on another bus
+        self._events_in_flight += 1
+        try:
+            await self._process_event(event, timeout=timeout)
+        finally:
+            self._events_in_flight -= 1
+
+    async def _process_event(self, event: 'BaseEvent[Any]', timeout: float | None = None) -> None:
         # Get applicable handlers
         applicable_handlers = self._get_applicable_handlers(event)
 
